@@ -167,7 +167,7 @@ impl Mappable for ClassFile {
 
 			record_components: Vec::new(), // TODO (takes in self.name as well)
 
-			attributes: Vec::new(), // TODO
+			attributes: self.attributes, // unknown to duke, cannot be interpreted: copied as they are
 		})
 	}
 }
@@ -231,7 +231,7 @@ impl MappableWithClassName for Field {
 			runtime_visible_type_annotations: self.runtime_visible_type_annotations.remap(remapper)?,
 			runtime_invisible_type_annotations: self.runtime_invisible_type_annotations.remap(remapper)?,
 
-			attributes: Vec::new(), // TODO
+			attributes: self.attributes, // unknown to duke, cannot be interpreted: copied as they are
 		})
 	}
 }
@@ -259,7 +259,7 @@ impl MappableWithClassName for Method {
 			annotation_default: self.annotation_default.remap(remapper)?,
 			method_parameters: self.method_parameters.remap(remapper)?,
 
-			attributes: Vec::new(), // TODO:
+			attributes: self.attributes, // unknown to duke, cannot be interpreted: copied as they are
 		})
 	}
 }
@@ -384,7 +384,7 @@ impl MappableWithClassName for Code {
 			runtime_visible_type_annotations: self.runtime_visible_type_annotations.remap(remapper)?,
 			runtime_invisible_type_annotations: self.runtime_invisible_type_annotations.remap(remapper)?,
 
-			attributes: Vec::new(), // TODO:
+			attributes: self.attributes, // unknown to duke, cannot be interpreted: copied as they are
 		})
 	}
 }
